@@ -638,6 +638,9 @@ class Interp:
         "numpy.sqrt": lambda x: np.sqrt(x), "math.sqrt": math.sqrt, "numpy.array": lambda x, **kw: np.array(x, dtype=complex),
         "numpy.eye": lambda n: np.eye(n, dtype=complex), "numpy.kron": np.kron, "numpy.exp": np.exp, "numpy.cos": np.cos, "numpy.sin": np.sin,
         "numpy.diag": lambda x: np.diag(x).astype(complex),
+        "operator.add": lambda a, b: a + b, "operator.sub": lambda a, b: a - b, "operator.mul": lambda a, b: a * b, "operator.mod": lambda a, b: a % b,
+        "operator.floordiv": lambda a, b: a // b, "operator.eq": lambda a, b: a == b, "operator.ne": lambda a, b: a != b, "operator.lt": lambda a, b: a < b,
+        "operator.le": lambda a, b: a <= b, "operator.gt": lambda a, b: a > b, "operator.ge": lambda a, b: a >= b, "operator.neg": lambda a: -a,
     }
 
     def call(self, e: ast.Call, env, m):
@@ -650,6 +653,9 @@ class Interp:
                     args.extend(self.eval(a.value, env, m))
                 else:
                     args.append(self.eval(a, env, m))
+            if fname == "len" and len(args) == 1 and isinstance(args[0], Obj) and args[0].cls is not None and self.repo.lookup(args[0].cls, "__len__") is not None:
+                r_ = self.repo.lookup(args[0].cls, "__len__")
+                return self.call_function(r_[0].module, r_[1], [], {}, self_obj=args[0])
             f = {"len": len, "range": lambda *a: list(range(*a)), "list": list, "tuple": tuple, "int": int, "float": float, "abs": abs, "min": min, "max": max,
                  "sum": sum, "enumerate": lambda x, *a: list(enumerate(x, *a)), "zip": lambda *a: list(zip(*a)), "reversed": lambda x: list(reversed(x)),
                  "sorted": sorted, "str": str, "bool": bool, "all": all, "any": any, "set": set, "slice": slice}[fname]
